@@ -88,6 +88,13 @@ USE_OPS = ["construct", "serialize", "deserialize", "toSchema", "createSerialize
 TYPE_NAMES = ["User", "Acct", "Item"]
 CLASS_NAMES = ["K", "K", "Person", "Order", "Order", "Node"]
 FLAGS = {"addProps": True, "compact": False, "failFast": True}
+NAME_POOL = ["id", "name", "first_name", "zip_code", "item_id", "qty", "f_1", "f_2"]
+
+
+def camel(key):
+    """camel_case_convert of a key (typedpy's documented camelCase rule, `_convert_to_camelcase`)"""
+    words = key.split("_")
+    return words[0] + "".join(w.title() for w in words[1:])
 
 
 def gen_case(rng, tier, idx):
@@ -101,24 +108,34 @@ def gen_case(rng, tier, idx):
     defines = []
     fcount = [0]
 
-    def fresh_name():
+    def fresh_name(taken):
+        """snake_case names (so camel_case_convert matters); half of them from a small pool, so that
+        unrelated classes share field names"""
+        if rng.random() < 0.5:
+            free = [n for n in NAME_POOL if n not in taken]
+            if free:
+                return rng.choice(free)
         fcount[0] += 1
-        return "f%d" % fcount[0]
+        return "f%d_v" % fcount[0]
 
-    def gen_field(c, allow_ref, allow_default):
+    def gen_field(c, allow_ref, allow_default, taken):
         r = rng.random()
-        f = {"name": fresh_name()}
-        if r < 0.35 and types:
+        f = {"name": fresh_name(taken)}
+        plain = [d for d in range(c) if not fast[d]]
+        if r < 0.32 and types:
             f["kind"] = {"wrap": rng.choice(types)["id"], "arr": rng.random() < 0.5}
-        elif r < 0.45 and allow_ref and [d for d in range(c) if not fast[d]]:
-            tgt = rng.choice([d for d in range(c) if not fast[d]])
+        elif r < 0.42 and allow_ref and plain:
+            tgt = rng.choice(plain)
             f["kind"] = {"ref": tgt, "arr": rng.random() < 0.3}
+        elif r < 0.50 and allow_ref and len(plain) >= 2:
+            f["kind"] = {"refs": rng.sample(plain, 2)}      # positional Array of two Structure item types
         else:
             tag = rng.randrange(X.N_PRIMS)
             f["kind"] = {"prim": tag}
             if allow_default and prims[str(tag)]["defaultable"] and rng.random() < 0.45:
                 f["default"] = True
-        f["key"] = (f["name"] + "X") if rng.random() < 0.3 else f["name"]
+        r = rng.random()
+        f["key"] = (f["name"] + "X") if r < 0.15 else ("m_" + f["name"]) if r < 0.33 else f["name"]
         return f
 
     for c in range(n_classes):
@@ -126,7 +143,7 @@ def gen_case(rng, tier, idx):
         parent = None
         if c > 0 and r < 0.45:
             pc = rng.randrange(c)
-            pk = rng.choice(["inherit", "inherit", "omit", "pick", "partial"])
+            pk = rng.choice(["inherit", "inherit", "inherit", "omit", "pick", "partial", "allreq", "extend"])
             if pk == "inherit" and srcs[pc].get("parent") and srcs[pc]["parent"]["kind"] != "inherit":
                 pk = "omit"
             parent = {"kind": pk, "c": pc}
@@ -147,8 +164,10 @@ def gen_case(rng, tier, idx):
             src["addProps"] = None
             src["ignoreNone"] = False
             src["name"] = rng.choice(CLASS_NAMES)
+        inherited = list(fieldnames[parent["c"]]) if parent else []
         for _ in range(nf):
-            src["fields"].append(gen_field(c, allow_ref=not src["fast"], allow_default=True))
+            taken = inherited + [f["name"] for f in src["fields"]]
+            src["fields"].append(gen_field(c, allow_ref=not src["fast"], allow_default=True, taken=taken))
         srcs[c] = src
         fast[c] = src["fast"]
         base = fieldnames[parent["c"]] if parent else []
@@ -186,7 +205,10 @@ def gen_case(rng, tier, idx):
         else:
             c = rng.choice(defined)
             kind = rng.choice(USE_OPS)
-            ops.append({"op": kind, "c": c, "probe": "empty" if rng.random() < 0.15 else "valid"})
+            op = {"op": kind, "c": c, "probe": "empty" if rng.random() < 0.15 else "valid"}
+            if kind in ("serialize", "deserialize") and rng.random() < 0.4:
+                op["camel"] = True       # use-parameter camel_case_convert
+            ops.append(op)
             n_use -= 1
     if rng.random() < 0.7:       # usually restore the global defaults at the end
         for fl in sorted(FLAGS):
@@ -239,6 +261,44 @@ def directed_cases():
         {"op": "setDefault", "flag": "addProps", "value": True},
         {"op": "define", "c": 1, "src": cls("G", [fld("a", {"prim": 0})])},
         {"op": "trusted", "c": 0, "probe": "valid"}]})
+    # region: positional Array of several Structure item types, a later item class maps a field name the
+    # first one also has; the container is used before / after the item classes
+    a = cls("Item", [fld("id", {"prim": 0}), fld("name", {"prim": 2})])
+    b = cls("Discount", [fld("id", {"prim": 0}, key="discount_id"), fld("qty", {"prim": 1}, default=True)])
+    for order in ([0, 1], [1, 0]):
+        for use in ("serialize", "toSchema", "deserialize", "construct"):
+            for first in (None, "serialize"):
+                ops = [{"op": "define", "c": 0, "src": a}, {"op": "define", "c": 1, "src": b},
+                       {"op": "define", "c": 2, "src": cls("Line", [fld("parts", {"refs": order}), fld("n", {"prim": 0}, default=True)])}]
+                if first:
+                    ops.append({"op": first, "c": order[0], "probe": "valid"})
+                ops.append({"op": use, "c": 2, "probe": "valid"})
+                out.append({"suite": "world", "types": [], "n": -1, "ops": ops})
+    out.append({"suite": "world", "types": [], "n": -1, "ops": [
+        {"op": "define", "c": 0, "src": a}, {"op": "define", "c": 1, "src": b},
+        {"op": "define", "c": 2, "src": cls("Line", [fld("first", {"ref": 0, "arr": True}), fld("second", {"ref": 1, "arr": False})])},
+        {"op": "serialize", "c": 2, "probe": "valid"}, {"op": "toSchema", "c": 2, "probe": "valid"}]})
+    # region: every derivation operator applied to a class with optional, defaulted and renamed fields; the
+    # source class is used before and after
+    src_ = cls("S", [fld("a", {"prim": 0}, key="m_a"), fld("b", {"prim": 2}, default=True),
+                     fld("zip_code", {"prim": 1})], ignoreNone=True)
+    for pk in ("allreq", "extend", "partial", "omit", "pick", "inherit"):
+        par = {"kind": pk, "c": 0}
+        if pk in ("omit", "pick"):
+            par["names"] = ["a"]
+        for pre in ([], [{"op": "toSchema", "c": 0, "probe": "valid"}]):
+            out.append({"suite": "world", "types": [], "n": -1, "ops": [{"op": "define", "c": 0, "src": src_}] + pre + [
+                {"op": "define", "c": 1, "src": cls("D", [], parent=par)},
+                {"op": "construct", "c": 1, "probe": "valid"}, {"op": "serialize", "c": 0, "probe": "valid"}]})
+    # region: the same class serialized with different camel_case_convert values, in both orders
+    p_ = cls("Person", [fld("first_name", {"prim": 2}), fld("zip_code", {"prim": 0}, default=True, key="m_zip_code"),
+                        fld("id", {"prim": 0})])
+    pf = cls("Person", [fld("first_name", {"prim": 2}), fld("zip_code", {"prim": 0}, default=True)], fast=True)
+    for src in (p_, pf):
+        for seq in ([True], [False, True], [True, False], [True, True]):
+            for kind in ("serialize", "deserialize"):
+                out.append({"suite": "world", "types": [], "n": -1, "ops": [{"op": "define", "c": 0, "src": src}] + [
+                    {"op": kind, "c": 0, "probe": "valid", "camel": cm} for cm in seq]})
     return out
 
 
@@ -262,6 +322,8 @@ def deps_of(case, c):
         for f in s["fields"]:
             if "ref" in f["kind"]:
                 stack.append(f["kind"]["ref"])
+            if "refs" in f["kind"]:
+                stack.extend(f["kind"]["refs"])
     return need
 
 
@@ -343,10 +405,15 @@ def wire_field(f, prims):
     elif "wrap" in k:
         p = prims["wrapArr" if k.get("arr") else "wrap"]
         kind = {"wrap": k["wrap"]}
+    elif "refs" in k:
+        p = prims["refs"]
+        kind = {"refs": list(k["refs"])}
     else:
         p = prims["refArr" if k.get("arr") else "ref"]
         kind = {"ref": k["ref"]}
-    return {"name": f["name"], "kind": kind, "default": bool(f.get("default")), "key": f.get("key") or f["name"],
+    key = f.get("key") or f["name"]
+    return {"name": f["name"], "kind": kind, "default": bool(f.get("default")), "key": key,
+            "camelKey": camel(key), "camelName": camel(f["name"]),
             "fastOk": p["fastOk"], "trustedOk": p["trustedOk"], "schemaOk": p["schemaOk"], "inlines": p["inlines"]}
 
 
@@ -376,6 +443,8 @@ def valid_args(srcs, c):
             a = {"prim": k["prim"], "valid": True}
         elif "wrap" in k:
             a = {"inst": k["wrap"]}
+        elif "refs" in k:
+            a = {"structs": list(k["refs"])}
         else:
             a = {"struct": k["ref"]}
         kw.append([f["name"], a])
@@ -403,7 +472,7 @@ def line(case, impl):
         elif op["op"] == "setDefault":
             ops.append(op)
         else:
-            o = {"op": op["op"], "c": op["c"]}
+            o = {"op": op["op"], "c": op["c"], "camel": bool(op.get("camel"))}
             if op["op"] in ("construct", "serialize", "deserialize", "trusted") and op["c"] in srcs:
                 o["kw"] = [] if (op["op"] == "construct" and op.get("probe") == "empty") else valid_args(srcs, op["c"])
             ops.append(o)
@@ -433,8 +502,13 @@ def finding_key(case, c, impl, model):
     causes = []
     for d in impl.get("closures", {}).get(str(c), [c]):
         causes += ((model or {}).get("classes", {}).get(str(d)) or {}).get("causes") or []
+    cfg = (model or {}).get("config") or {}
     if "wrapper-clash" in causes:
         return "name-keyed:FieldMeta._registry"
+    if "mapper-cache" in causes and cfg.get("mapperDropsCamel"):
+        return "key-drops-argument:aggregated_mapper_by_class"
+    if "mapper-cache" in causes and cfg.get("mapperByName"):
+        return "name-keyed:aggregated_mapper_by_class"
     if "required-written" in causes:
         return "mutates-cls._required:structure_to_schema"
     if causes:
@@ -465,6 +539,10 @@ def judge(case, impl, model):
             elif rs.get("done"):
                 if dict(rs.get("wraps", {})) != {k: v for k, v in ms.get("wraps", {}).items()}:
                     msgs.append(f"step {i} define c={op['c']}: implicit wrappers check {rs.get('wraps')} in the real code, {ms.get('wraps')} in the model")
+        elif op["op"] == "serialize" and "keys" in rs and "err" not in rs and ms is not None:
+            if bool(ms.get("accepted")) and sorted(ms.get("keys", [])) != rs["keys"]:
+                msgs.append(f"step {i} serialize c={op['c']} camel_case_convert={bool(op.get('camel'))}: "
+                            f"emitted keys {rs['keys']} real, {sorted(ms.get('keys', []))} model")
         elif op["op"] == "toSchema" and rs.get("done") and "required" in rs:
             if sorted(ms.get("requiredAfter") or []) != rs["required"]:
                 msgs.append(f"step {i} toSchema c={op['c']}: _required after = {rs['required']} real, {sorted(ms.get('requiredAfter') or [])} model")
@@ -522,7 +600,7 @@ def srcs_of(case):
 
 def has_ref(case, c):
     srcs = {op["c"]: op["src"] for op in case["ops"] if op["op"] == "define"}
-    return any("ref" in f["kind"] for f in flat_fields(srcs, c))
+    return any("ref" in f["kind"] or "refs" in f["kind"] for f in flat_fields(srcs, c))
 
 
 def case_name(case, c):
